@@ -131,6 +131,7 @@ type explorer struct {
 	choices  map[string]string
 	spec     int // >0 while a pure region is evaluated speculatively
 	allowOpaqueCut bool
+	chanSeq  int
 	condSet  map[string]bool
 	prefixKinds []byte
 	pathID   int64
@@ -819,6 +820,7 @@ func (i *interpreter) runPath(harness *ssa.Function, prefix []int64) (pending []
 	ex.steps, ex.events, ex.obsTerms, ex.pending = 0, nil, nil, nil
 	ex.spec = 0
 	ex.allowOpaqueCut = false
+	ex.chanSeq = 0
 	ex.condSet = map[string]bool{}
 	ex.pathID = atomic.AddInt64(&pathSeq, 1)
 	ex.replacements = map[string]value{}
